@@ -152,7 +152,17 @@ pub fn render_record(e: &Element<String>, o: &Options) -> Value {
     match text {
         Err(_) => json!({"opts": opts_json(o), "ok": false, "structs": [], "error": "panic", "text": ""}),
         Ok(t) => match parse_rendered(&t) {
-            Ok(s) => json!({"opts": opts_json(o), "ok": true, "structs": s, "text": t}),
+            Ok(s) => {
+                let mut v = json!({"opts": opts_json(o), "ok": true, "structs": s, "text": t});
+                // every VERIF_LAYOUT-th rendering carries its text as a character sequence (RenderTrace!LayoutTags)
+                static N: std::sync::atomic::AtomicUsize = std::sync::atomic::AtomicUsize::new(0);
+                static STRIDE: std::sync::OnceLock<usize> = std::sync::OnceLock::new();
+                let stride = *STRIDE.get_or_init(|| std::env::var("VERIF_LAYOUT").ok().and_then(|x| x.parse().ok()).unwrap_or(4));
+                if stride > 0 && N.fetch_add(1, std::sync::atomic::Ordering::Relaxed) % stride == 0 && t.len() <= 6000 {
+                    v["textchars"] = chars(&t);
+                }
+                v
+            }
             Err(msg) => json!({"opts": opts_json(o), "ok": false, "structs": [], "error": msg, "text": t}),
         },
     }
